@@ -533,43 +533,85 @@ Qed.
 
 (** * 3. The READY and FAILED decisions *)
 Definition has_nominated_valid (cid : Z) (l : list pair) : bool := existsb (fun p => (p_comp p =? cid) && p_valid p && p_nom p) l.
-Lemma count_nv_zero : forall cid l, count_nominated_valid cid l = O <-> has_nominated_valid cid l = false.
-Proof.
-  intros cid l; unfold count_nominated_valid, has_nominated_valid; induction l as [|a l IH]; simpl; [split; reflexivity|].
-  destruct ((p_comp a =? cid) && p_valid a && p_nom a); simpl; [split; discriminate | exact IH].
-Qed.
 Lemma has_nv_iff : forall cid l, has_nominated_valid cid l = true <-> exists p, In p l /\ p_comp p = cid /\ p_valid p = true /\ p_nom p = true.
 Proof.
   intros cid l; unfold has_nominated_valid; rewrite existsb_exists; split; intros [p [I H]]; exists p; split; auto.
   - apply andb_true_iff in H; destruct H as [H N]; apply andb_true_iff in H; destruct H as [C V]; apply Z.eqb_eq in C; auto.
   - destruct H as [-> [-> ->]]; rewrite Z.eqb_refl; reflexivity.
 Qed.
+Lemma best_nv_none : forall cid l, best_nominated_valid cid l = None <-> has_nominated_valid cid l = false.
+Proof.
+  intros cid l; unfold best_nominated_valid, has_nominated_valid; induction l as [|a l IH]; simpl; [split; reflexivity|].
+  destruct ((p_comp a =? cid) && p_valid a && p_nom a); simpl; [split; discriminate | exact IH].
+Qed.
+(** "best" is the FIRST valid nominated pair of the component in list order (the one of highest priority, the list being sorted) *)
+Lemma best_nv_some : forall cid l b, best_nominated_valid cid l = Some b ->
+  p_comp b = cid /\ p_valid b = true /\ p_nom b = true /\
+  exists l1 l2, l = l1 ++ b :: l2 /\ has_nominated_valid cid l1 = false.
+Proof.
+  intros cid l b; unfold best_nominated_valid, has_nominated_valid; induction l as [|a l IH]; simpl; [discriminate|].
+  destruct ((p_comp a =? cid) && p_valid a && p_nom a) eqn:E; intro H.
+  - inversion H; subst. apply andb_true_iff in E; destruct E as [E N]; apply andb_true_iff in E; destruct E as [C V]; apply Z.eqb_eq in C.
+    repeat split; auto. exists [], l; split; reflexivity.
+  - destruct (IH H) as [C [V [N [l1 [l2 [-> F]]]]]]. repeat split; auto. exists (a :: l1), l2; split; [reflexivity|]. simpl; rewrite E; exact F.
+Qed.
+(* the selected pair the decision works with: since e3eeaf1 "best" takes over when there is no selected pair *)
+Definition takeover (l : list pair) (c : comp) : comp * list Z :=
+  match best_nominated_valid (c_id c) l with
+  | Some best => if c_sel_local c =? 0 then update_selected c best else (c, [])
+  | None => (c, [])
+  end.
 (* the condition under which conn_check_update_check_list_state_for_ready walks the component to READY *)
 Definition goes_ready (l : list pair) (c : comp) : bool :=
-  has_nominated_valid (c_id c) l && forallb (fun p => negb (blocking (c_id c) (c_sel c) p)) l.
+  has_nominated_valid (c_id c) l && forallb (fun p => negb (blocking (c_id c) (c_sel (fst (takeover l c))) p)) l.
+(* the condition under which the g_assert (priority > 0) of the pruning step fails *)
+Definition faults (l : list pair) (c : comp) : bool :=
+  has_nominated_valid (c_id c) l && negb (0 <? c_sel (fst (takeover l c))).
 Lemma for_ready_eq : forall l c,
   for_ready l c =
-  if goes_ready l c then (snd (prune (c_id c) (c_sel c) l), fst (ready_progress c), snd (ready_progress c))
-  else if has_nominated_valid (c_id c) l then (snd (prune (c_id c) (c_sel c) l), c, [])
-  else (l, c, []).
+  if faults l c then None
+  else let c1 := fst (takeover l c) in
+       if goes_ready l c then Some (snd (prune (c_id c) (c_sel c1) l), fst (ready_progress c1), snd (takeover l c) ++ snd (ready_progress c1))
+       else if has_nominated_valid (c_id c) l then Some (snd (prune (c_id c) (c_sel c1) l), c1, snd (takeover l c))
+       else Some (l, c, []).
 Proof.
-  intros l c; unfold for_ready, goes_ready.
-  destruct (count_nominated_valid (c_id c) l) eqn:N.
-  - apply count_nv_zero in N; rewrite N; reflexivity.
+  intros l c; unfold for_ready, goes_ready, faults, takeover.
+  destruct (best_nominated_valid (c_id c) l) as [best|] eqn:N.
   - assert (H : has_nominated_valid (c_id c) l = true).
-    { destruct (has_nominated_valid (c_id c) l) eqn:E; auto. apply count_nv_zero in E; congruence. }
+    { destruct (has_nominated_valid (c_id c) l) eqn:E; auto. apply best_nv_none in E; congruence. }
     rewrite H; simpl.
-    destruct (prune (c_id c) (c_sel c) l) as [k l'] eqn:P; simpl.
-    assert (Z0 : (k =? 0) = forallb (fun p => negb (blocking (c_id c) (c_sel c) p)) l).
-    { pose proof (prune_count_zero (c_id c) (c_sel c) l) as Q; rewrite P in Q; simpl in Q.
-      destruct (forallb (fun p => negb (blocking (c_id c) (c_sel c) p)) l) eqn:F.
+    destruct (if c_sel_local c =? 0 then update_selected c best else (c, [])) as [c1 o0]; simpl.
+    unfold prune_chk. destruct (0 <? c_sel c1); simpl; [|reflexivity].
+    destruct (prune (c_id c) (c_sel c1) l) as [k l'] eqn:P; simpl.
+    assert (Z0 : (k =? 0) = forallb (fun p => negb (blocking (c_id c) (c_sel c1) p)) l).
+    { pose proof (prune_count_zero (c_id c) (c_sel c1) l) as Q; rewrite P in Q; simpl in Q.
+      destruct (forallb (fun p => negb (blocking (c_id c) (c_sel c1) p)) l) eqn:F.
       - apply Z.eqb_eq, Q; intros p I; rewrite forallb_forall in F; apply negb_true_iff, F, I.
-      - apply Z.eqb_neq; intro K; rewrite Q in K. assert (X : forallb (fun p => negb (blocking (c_id c) (c_sel c) p)) l = true); [|congruence].
+      - apply Z.eqb_neq; intro K; rewrite Q in K. assert (X : forallb (fun p => negb (blocking (c_id c) (c_sel c1) p)) l = true); [|congruence].
         apply forallb_forall; intros p I; rewrite (K p I); reflexivity. }
-    rewrite Z0. destruct (forallb _ l); [destruct (ready_progress c); reflexivity | reflexivity].
+    rewrite Z0. destruct (forallb _ l); [destruct (ready_progress c1); reflexivity | reflexivity].
+  - apply best_nv_none in N; rewrite N; reflexivity.
+Qed.
+(** what the take-over does: nothing when a selected pair exists or no valid nominated pair does; otherwise the selected priority becomes
+    max (old, best's), and when it grows the selected pair is best's candidates and new-selected-pair is emitted *)
+Lemma takeover_spec : forall l c, let c1 := fst (takeover l c) in
+  c_id c1 = c_id c /\ c_state c1 = c_state c /\ c_remote c1 = c_remote c /\ c_sel c <= c_sel c1 /\
+  (c_sel_local c <> 0 -> takeover l c = (c, [])) /\
+  (forall b, best_nominated_valid (c_id c) l = Some b -> c_sel_local c = 0 ->
+     c_sel c1 = Z.max (c_sel c) (p_prio b) /\
+     (c_sel c < p_prio b -> c_sel_local c1 = p_local b /\ c_sel_remote c1 = p_remote b /\ snd (takeover l c) = [sg_SELECTED]) /\
+     (p_prio b <= c_sel c -> takeover l c = (c, []))).
+Proof.
+  intros l c; unfold takeover, update_selected. destruct (best_nominated_valid (c_id c) l) as [best|].
+  - destruct (c_sel_local c =? 0) eqn:L.
+    + apply Z.eqb_eq in L. destruct (c_sel c <? p_prio best) eqn:X; [apply Z.ltb_lt in X | apply Z.ltb_ge in X]; simpl;
+        (split; [reflexivity|]; split; [reflexivity|]; split; [reflexivity|]; split; [lia|]; split; [intro N; contradiction|]);
+        intros b0 Hb _; inversion Hb; subst b0; (split; [lia|]; split; [intro Y; try lia; auto | intro Y; try lia; auto]).
+    + apply Z.eqb_neq in L. simpl. split; [reflexivity|]; split; [reflexivity|]; split; [reflexivity|]; split; [lia|]; split; [auto|]. intros b0 _ Y; contradiction.
+  - simpl. split; [reflexivity|]; split; [reflexivity|]; split; [reflexivity|]; split; [lia|]; split; [auto|]. intros b0 Hb; discriminate.
 Qed.
 Lemma ready_progress_spec : forall c, let c' := fst (ready_progress c) in
-  c_state c' = st_READY /\ c_id c' = c_id c /\ c_sel c' = c_sel c /\ c_remote c' = c_remote c /\
+  c_state c' = st_READY /\ c_id c' = c_id c /\ c_sel c' = c_sel c /\ (c_sel_local c' = c_sel_local c /\ c_remote c' = c_remote c) /\
   (snd (ready_progress c) = [st_CONNECTING; st_CONNECTED; st_READY] \/ snd (ready_progress c) = [st_CONNECTED; st_READY] \/
    snd (ready_progress c) = [st_READY] \/ (snd (ready_progress c) = [] /\ c_state c = st_READY)).
 Proof.
@@ -583,34 +625,84 @@ Proof.
     + apply Z.ltb_ge in B. destruct (c_state c =? 4) eqn:D; simpl; repeat split; auto. apply Z.eqb_eq in D; auto 6. right; right; right; split; auto. apply Z.eqb_eq; exact D.
 Qed.
 
-(** READY is announced only if the component has a nominated valid pair and no pair of the component with priority >= the selected
-    pair's is still IN_PROGRESS or queued for a triggered check ... *)
-Theorem ready_only_if : forall l c l' c' o, for_ready l c = (l', c', o) -> In st_READY o ->
-  (exists p, In p l /\ p_comp p = c_id c /\ p_valid p = true /\ p_nom p = true) /\
-  (forall q, In q l -> p_comp q = c_id c -> c_sel c <= p_prio q -> p_state q <> InProgress /\ p_trig q = false).
+Lemma takeover_out : forall l c x, In x (snd (takeover l c)) -> x = sg_SELECTED.
 Proof.
-  intros l c l' c' o H R; rewrite for_ready_eq in H. destruct (goes_ready l c) eqn:G.
+  intros l c x; unfold takeover, update_selected. destruct (best_nominated_valid (c_id c) l); [|intros []].
+  destruct (c_sel_local c =? 0); [|intros []]. destruct (c_sel c <? p_prio p); simpl; [intros [<- | []]; reflexivity | intros []].
+Qed.
+Lemma last_app_ne : forall {A} (a b : list A) d, b <> [] -> last (a ++ b) d = last b d.
+Proof.
+  intros A a b d N; induction a as [|x a IH]; simpl; auto. destruct (a ++ b) eqn:E; [|exact IH].
+  destruct a; simpl in E; [contradiction | discriminate].
+Qed.
+(** READY is announced only if the component has a nominated valid pair and no pair of the component with priority >= the selected
+    pair's (after the take-over, if there was no selected pair) is still IN_PROGRESS or queued for a triggered check ... *)
+Theorem ready_only_if : forall l c l' c' o, for_ready l c = Some (l', c', o) -> In st_READY o ->
+  (exists p, In p l /\ p_comp p = c_id c /\ p_valid p = true /\ p_nom p = true) /\
+  (forall q, In q l -> p_comp q = c_id c -> c_sel (fst (takeover l c)) <= p_prio q -> p_state q <> InProgress /\ p_trig q = false).
+Proof.
+  intros l c l' c' o H R; rewrite for_ready_eq in H. destruct (faults l c); [discriminate|]. cbv zeta in H. destruct (goes_ready l c) eqn:G.
   - unfold goes_ready in G; apply andb_true_iff in G; destruct G as [G1 G2]. split; [apply has_nv_iff; exact G1|].
     intros q I C S. rewrite forallb_forall in G2. specialize (G2 q I). apply negb_true_iff in G2.
-    split; [intro X | destruct (p_trig q) eqn:T; auto]; (assert (B : blocking (c_id c) (c_sel c) q = true) by (apply blocking_true_iff; auto)); congruence.
-  - destruct (has_nominated_valid (c_id c) l); inversion H; subst; contradiction.
+    split; [intro X | destruct (p_trig q) eqn:T; auto]; (assert (B : blocking (c_id c) (c_sel (fst (takeover l c))) q = true) by (apply blocking_true_iff; auto)); congruence.
+  - exfalso. destruct (has_nominated_valid (c_id c) l); inversion H; subst; [|contradiction].
+    apply takeover_out in R; unfold st_READY, sg_SELECTED in R; discriminate.
 Qed.
-(** ... and under exactly that condition the component ends READY, through CONNECTING and CONNECTED as needed *)
+(** ... and under exactly that condition (and a positive selected priority) the component ends READY, through CONNECTING and CONNECTED as needed *)
 Theorem ready_if : forall l c, (exists p, In p l /\ p_comp p = c_id c /\ p_valid p = true /\ p_nom p = true) ->
-  (forall q, In q l -> p_comp q = c_id c -> c_sel c <= p_prio q -> p_state q <> InProgress /\ p_trig q = false) ->
-  let '(l', c', o) := for_ready l c in
-  c_state c' = st_READY /\ l' = snd (prune (c_id c) (c_sel c) l) /\ (c_state c <> st_READY -> last o 0 = st_READY).
+  (forall q, In q l -> p_comp q = c_id c -> c_sel (fst (takeover l c)) <= p_prio q -> p_state q <> InProgress /\ p_trig q = false) ->
+  0 < c_sel (fst (takeover l c)) ->
+  exists l' c' o, for_ready l c = Some (l', c', o) /\
+  c_state c' = st_READY /\ l' = snd (prune (c_id c) (c_sel (fst (takeover l c))) l) /\ (c_state c <> st_READY -> last o 0 = st_READY).
 Proof.
-  intros l c E B; rewrite for_ready_eq. assert (G : goes_ready l c = true).
+  intros l c E B Pos; rewrite for_ready_eq. assert (G : goes_ready l c = true).
   { unfold goes_ready; apply andb_true_iff; split; [apply has_nv_iff; exact E|]. apply forallb_forall; intros q I; apply negb_true_iff.
-    destruct (blocking (c_id c) (c_sel c) q) eqn:X; auto. apply blocking_true_iff in X; destruct X as [C [S D]].
+    destruct (blocking (c_id c) (c_sel (fst (takeover l c))) q) eqn:X; auto. apply blocking_true_iff in X; destruct X as [C [S D]].
     destruct (B q I C S) as [N T]; destruct D; congruence. }
-  rewrite G. destruct (ready_progress_spec c) as [S [_ [_ [_ O]]]]. split; [exact S|]. split; [reflexivity|].
-  intro N; destruct O as [-> | [-> | [-> | [_ X]]]]; try reflexivity. contradiction.
+  assert (F : faults l c = false) by (unfold faults; apply Z.ltb_lt in Pos; rewrite Pos, andb_false_r; reflexivity).
+  rewrite F; cbv zeta; rewrite G. destruct (ready_progress_spec (fst (takeover l c))) as [S [_ [_ [_ O]]]].
+  eexists _, _, _; split; [reflexivity|]. split; [exact S|]. split; [reflexivity|].
+  destruct (takeover_spec l c) as [_ [St _]].
+  intro N; destruct O as [O | [O | [O | [_ X]]]]; try (rewrite O, last_app_ne by discriminate; reflexivity). congruence.
 Qed.
-(** the component state is left alone otherwise *)
-Theorem not_ready_unchanged : forall l c, goes_ready l c = false -> snd (fst (for_ready l c)) = c /\ snd (for_ready l c) = [].
-Proof. intros l c G; rewrite for_ready_eq, G. destruct (has_nominated_valid (c_id c) l); split; reflexivity. Qed.
+(** otherwise the component state is left alone (the take-over of the selected pair happens all the same) *)
+Theorem not_ready_unchanged : forall l c l' c' o, goes_ready l c = false -> for_ready l c = Some (l', c', o) ->
+  (has_nominated_valid (c_id c) l = true -> c' = fst (takeover l c) /\ o = snd (takeover l c)) /\
+  (has_nominated_valid (c_id c) l = false -> l' = l /\ c' = c /\ o = []).
+Proof.
+  intros l c l' c' o G H; rewrite for_ready_eq in H. destruct (faults l c); [discriminate|]. cbv zeta in H; rewrite G in H.
+  destruct (has_nominated_valid (c_id c) l); inversion H; subst; split; auto; discriminate.
+Qed.
+
+(** the assertion of the pruning step (selected priority > 0) cannot fail any more inside the READY decision: with no selected pair the
+    best valid nominated pair takes over first.  Hypotheses: pair priorities are positive (they always are: nice_candidate_pair_priority of
+    positive candidate priorities), and a selected pair, when there is one, has a positive priority (it is a pair's) *)
+Theorem for_ready_never_asserts : forall l c,
+  (c_sel_local c <> 0 -> 0 < c_sel c) ->
+  (forall p, In p l -> p_comp p = c_id c -> p_valid p = true -> p_nom p = true -> 0 < p_prio p) ->
+  for_ready l c <> None.
+Proof.
+  intros l c Hc Hp; rewrite for_ready_eq. assert (F : faults l c = false).
+  { unfold faults. destruct (has_nominated_valid (c_id c) l) eqn:H; [|reflexivity]. simpl. apply negb_false_iff, Z.ltb_lt.
+    destruct (best_nominated_valid (c_id c) l) as [b|] eqn:B; [|apply best_nv_none in B; congruence].
+    destruct (best_nv_some _ _ _ B) as [C [V [N [l1 [l2 [E _]]]]]].
+    assert (Pb : 0 < p_prio b) by (apply Hp; auto; rewrite E; apply in_or_app; right; left; reflexivity).
+    destruct (takeover_spec l c) as [_ [_ [_ [Le [T1 T2]]]]].
+    destruct (Z.eq_dec (c_sel_local c) 0) as [L | L].
+    - destruct (T2 b B L) as [M _]. rewrite M; lia.
+    - rewrite (T1 L); simpl; auto. }
+  rewrite F; cbv zeta. destruct (goes_ready l c); [discriminate|]. destruct (has_nominated_valid (c_id c) l); discriminate.
+Qed.
+(** in particular with no selected pair at all (what faulted before e3eeaf1, see [for_ready_without_selected_pair_regression]) *)
+Corollary for_ready_no_selected_pair : forall l c, c_sel_local c = 0 ->
+  (forall p, In p l -> p_comp p = c_id c -> p_valid p = true -> p_nom p = true -> 0 < p_prio p) -> for_ready l c <> None.
+Proof. intros l c L Hp; apply for_ready_never_asserts; auto. intro N; contradiction. Qed.
+(** the only way left to the assertion: a valid nominated pair AND a selected priority that is not positive after the take-over *)
+Theorem for_ready_asserts_iff : forall l c, for_ready l c = None <-> faults l c = true.
+Proof.
+  intros l c; rewrite for_ready_eq. destruct (faults l c); [split; reflexivity|]. cbv zeta.
+  destruct (goes_ready l c); [split; discriminate|]. destruct (has_nominated_valid (c_id c) l); split; discriminate.
+Qed.
 
 (** FAILED *)
 Lemma fails_true_iff : forall l c, fails l c = true <->
@@ -666,12 +758,12 @@ Proof.
   intros l c c2 E G; unfold goes_ready in G; apply andb_true_iff in G; destruct G as [G _]. apply has_nv_iff in G; destruct G as [p [I [C [_ N]]]].
   destruct (fails l c2) eqn:F; auto. apply fails_true_iff in F; destruct F as [_ F]. destruct (F p I) as [_ X]; congruence.
 Qed.
-Theorem failed_excludes_ready : forall l c c2, c_id c2 = c_id c -> fails l c2 = true -> for_ready l c = (l, c, []).
+Theorem failed_excludes_ready : forall l c c2, c_id c2 = c_id c -> fails l c2 = true -> for_ready l c = Some (l, c, []).
 Proof.
   intros l c c2 E F; rewrite for_ready_eq. assert (H : has_nominated_valid (c_id c) l = false).
   { destruct (has_nominated_valid (c_id c) l) eqn:X; auto. apply has_nv_iff in X; destruct X as [p [I [C [_ N]]]].
     apply fails_true_iff in F; destruct F as [_ F]. destruct (F p I) as [_ Y]; congruence. }
-  unfold goes_ready; rewrite H; reflexivity.
+  unfold goes_ready, faults; rewrite H; reflexivity.
 Qed.
 
 (** * 5. Idempotence *)
@@ -693,19 +785,38 @@ Proof.
 Qed.
 Lemma ready_progress_noop : forall c, c_state c = st_READY -> ready_progress c = (c, []).
 Proof. intros c H; unfold ready_progress, signal, st_CONNECTING, st_CONNECTED, st_READY, st_FAILED in *; rewrite H; simpl; rewrite H; simpl; rewrite H; reflexivity. Qed.
-(** applying the READY decision twice announces nothing new and changes nothing more *)
-Theorem for_ready_idempotent : forall l c, let '(l1, c1, o1) := for_ready l c in for_ready l1 c1 = (l1, c1, []).
+(** applying the READY decision twice announces nothing new and changes nothing more.  Hypotheses (they hold in the code): candidate
+    pointers of pairs are not NULL, and without a selected pair the selected priority is 0 (nice_component_clear_selected_pair) *)
+Theorem for_ready_idempotent : forall l c l1 c1 o1, (forall p, In p l -> p_local p <> 0) -> (c_sel_local c = 0 -> c_sel c = 0) ->
+  for_ready l c = Some (l1, c1, o1) -> for_ready l1 c1 = Some (l1, c1, []).
 Proof.
-  intros l c; rewrite (for_ready_eq l c). destruct (goes_ready l c) eqn:G.
-  - destruct (ready_progress_spec c) as [S [Hi [Hs [_ _]]]].
-    rewrite for_ready_eq. unfold goes_ready; rewrite Hi, Hs, blocking_forall_prune, prune_idempotent.
-    unfold goes_ready in G; apply andb_true_iff in G; destruct G as [_ G2]; rewrite G2, andb_true_r.
-    destruct (has_nominated_valid (c_id c) (snd (prune (c_id c) (c_sel c) l))); [|reflexivity].
-    rewrite (ready_progress_noop _ S); reflexivity.
-  - destruct (has_nominated_valid (c_id c) l) eqn:H.
-    + rewrite for_ready_eq. unfold goes_ready in *; rewrite blocking_forall_prune, prune_idempotent. rewrite H in G; simpl in G; rewrite G, andb_false_r.
-      destruct (has_nominated_valid (c_id c) (snd (prune (c_id c) (c_sel c) l))); reflexivity.
-    + rewrite for_ready_eq; unfold goes_ready; rewrite H; reflexivity.
+  intros l c l1 c1 o1 HL HC H. rewrite for_ready_eq in H. destruct (faults l c) eqn:F; [discriminate|]. cbv zeta in H.
+  destruct (has_nominated_valid (c_id c) l) eqn:NV.
+  2:{ unfold goes_ready in H; rewrite NV in H; simpl in H. inversion H; subst. rewrite for_ready_eq; unfold faults, goes_ready; rewrite NV; reflexivity. }
+  set (ct := fst (takeover l c)) in *.
+  assert (Pos : 0 < c_sel ct) by (unfold faults in F; rewrite NV in F; simpl in F; apply negb_false_iff, Z.ltb_lt in F; exact F).
+  destruct (takeover_spec l c) as [Tid [_ [_ [_ [T1 T2]]]]]. fold ct in Tid.
+  assert (Loc : c_sel_local ct <> 0).
+  { destruct (Z.eq_dec (c_sel_local c) 0) as [L | L]; [|unfold ct; rewrite (T1 L); exact L].
+    destruct (best_nominated_valid (c_id c) l) as [b|] eqn:B; [|apply best_nv_none in B; congruence].
+    destruct (T2 b eq_refl L) as [M [Up _]]. fold ct in M, Up. rewrite (HC L) in *.
+    assert (X : 0 < p_prio b) by lia. destruct (Up X) as [-> _].
+    destruct (best_nv_some _ _ _ B) as [_ [_ [_ [l1' [l2' [E _]]]]]]. apply HL; rewrite E; apply in_or_app; right; left; reflexivity. }
+  assert (Key : forall c', c_id c' = c_id c -> c_sel c' = c_sel ct -> c_sel_local c' = c_sel_local ct ->
+                (goes_ready l c = true -> c_state c' = st_READY) ->
+                for_ready (snd (prune (c_id c) (c_sel ct) l)) c' = Some (snd (prune (c_id c) (c_sel ct) l), c', [])).
+  { intros c' Hid Hsel Hloc Hst. set (l' := snd (prune (c_id c) (c_sel ct) l)).
+    assert (TK : takeover l' c' = (c', [])).
+    { destruct (takeover_spec l' c') as [_ [_ [_ [_ [T1' _]]]]]. apply T1'; rewrite Hloc; exact Loc. }
+    rewrite for_ready_eq. unfold faults, goes_ready. rewrite TK; simpl. rewrite Hid, Hsel. unfold l'. rewrite blocking_forall_prune, prune_idempotent.
+    apply Z.ltb_lt in Pos; rewrite Pos; simpl. rewrite andb_false_r.
+    destruct (has_nominated_valid (c_id c) (snd (prune (c_id c) (c_sel ct) l))); simpl; [|reflexivity].
+    destruct (forallb (fun p => negb (blocking (c_id c) (c_sel ct) p)) l) eqn:FB; [|reflexivity].
+    assert (G : goes_ready l c = true) by (unfold goes_ready; rewrite NV; exact FB).
+    rewrite (ready_progress_noop _ (Hst G)); reflexivity. }
+  destruct (goes_ready l c) eqn:G; inversion H; subst.
+  - destruct (ready_progress_spec ct) as [S [Hi [Hs [[Hl _] _]]]]. apply Key; auto; congruence.
+  - apply Key; auto. intro; discriminate.
 Qed.
 Lemma failed_loop_twice : forall l cs, failed_loop l (fst (failed_loop l cs)) = (fst (failed_loop l cs), []).
 Proof.
@@ -738,11 +849,15 @@ Proof. induction ss as [|s ss IH]; intros [|l ls] H; simpl; auto. inversion H; s
 Lemma unfreeze_next_length : forall ss, length (snd (unfreeze_next ss)) = length ss.
 Proof. intro ss; symmetry; eapply F2_length; apply unfreeze_next_only_thaws. Qed.
 
+(* a check was started *)
+Definition sent (r : option (bool * list stream * list (nat * Z * Z))) : bool := match r with Some (true, _, _) => true | _ => false end.
+Lemma sent_true : forall r, sent r = true -> exists ss' o, r = Some (true, ss', o).
+Proof. intros [[[[|] ss'] o]|] H; try discriminate. exists ss', o; reflexivity. Qed.
 Lemma ordinary_check_cases : forall rfc ctl ss si,
   let ls := snd (unfreeze_next (P ss)) in
   match find_next_waiting (nth si ls []) with
-  | None => ordinary_check rfc ctl true ss si = (false, put_pairs ss ls, [])
-  | Some p => Forall (fun s => s_creds s = true) ss -> fst (fst (ordinary_check rfc ctl true ss si)) = true
+  | None => ordinary_check rfc ctl true ss si = Some (false, put_pairs ss ls, [])
+  | Some p => Forall (fun s => s_creds s = true) ss -> sent (ordinary_check rfc ctl true ss si) = true
   end.
 Proof.
   intros rfc ctl ss si ls; unfold ordinary_check. fold (P ss). rewrite ordinary_select_eq. fold ls.
@@ -759,7 +874,7 @@ Qed.
 
 Lemma ordinary_agent_from_waiting : forall rfc ctl n i ss, length ss = (i + n)%nat -> Forall (fun s => s_creds s = true) ss ->
   (exists k, (i <= k)%nat /\ existsb (is_state Waiting) (nth k (P ss) []) = true) ->
-  fst (fst (ordinary_agent_from rfc ctl (fun _ => true) ss i n)) = true.
+  sent (ordinary_agent_from rfc ctl (fun _ => true) ss i n) = true.
 Proof.
   intros rfc ctl; induction n as [|n IH]; intros i ss L C [k [K W]].
   - rewrite nth_overflow in W; [discriminate|]. unfold P; rewrite map_length; lia.
@@ -770,20 +885,20 @@ Proof.
     pose proof (ordinary_check_cases rfc ctl ss i) as O; cbv zeta in O.
     assert (U : snd (unfreeze_next (P ss)) = P ss) by (unfold unfreeze_next; rewrite AW; reflexivity). rewrite U in O.
     destruct (find_next_waiting (nth i (P ss) [])) eqn:E.
-    + specialize (O C). destruct (ordinary_check rfc ctl true ss i) as [[sent ss1] o]; simpl in O; subst sent; reflexivity.
+    + specialize (O C). destruct (ordinary_check rfc ctl true ss i) as [[[[|] ss1] o]|]; simpl in O; try discriminate; reflexivity.
     + rewrite O, put_pairs_same. simpl.
-      assert (X : fst (fst (ordinary_agent_from rfc ctl (fun _ => true) ss (S i) n)) = true).
+      assert (X : sent (ordinary_agent_from rfc ctl (fun _ => true) ss (S i) n) = true).
       { apply IH; auto; [lia|]. exists k; split; auto. destruct (Nat.eq_dec k i) as [-> | D]; [|lia].
         apply find_next_waiting_none in E; congruence. }
-      destruct (ordinary_agent_from rfc ctl (fun _ => true) ss (S i) n) as [[a b] c]; simpl in *; exact X.
+      destruct (ordinary_agent_from rfc ctl (fun _ => true) ss (S i) n) as [[[[|] b] c]|]; simpl in *; auto.
 Qed.
 (** If the remote credentials are known and sending works: whenever some pair of some stream is WAITING or FROZEN, the ordinary-check step of
     the Ta tick starts a check (so the scheduler cannot stall while untested pairs remain, whatever is IN_PROGRESS) *)
 Theorem ordinary_agent_progress : forall rfc ctl ss, Forall (fun s => s_creds s = true) ss ->
   (exists s p, In s ss /\ In p (s_pairs s) /\ (p_state p = Waiting \/ p_state p = Frozen)) ->
-  fst (fst (ordinary_agent rfc ctl (fun _ => true) ss)) = true.
+  exists ss' o, ordinary_agent rfc ctl (fun _ => true) ss = Some (true, ss', o).
 Proof.
-  intros rfc ctl ss C [s [p [Is [Ip St]]]]; unfold ordinary_agent.
+  intros rfc ctl ss C [s [p [Is [Ip St]]]]; apply sent_true; unfold ordinary_agent.
   assert (AW0 : any_waiting (snd (unfreeze_next (P ss))) = true).
   { apply unfreeze_next_progress; exists (s_pairs s), p; repeat split; auto. unfold P; apply in_map; exact Is. }
   destruct (any_waiting (P ss)) eqn:AW.
@@ -793,11 +908,11 @@ Proof.
   - destruct ss as [|s0 ss0]; [contradiction|]. remember (s0 :: ss0) as ss. assert (Len : length ss = S (length ss0)) by (subst; reflexivity). rewrite Len. simpl.
     pose proof (ordinary_check_cases rfc ctl ss 0) as O; cbv zeta in O.
     destruct (find_next_waiting (nth 0 (snd (unfreeze_next (P ss))) [])) eqn:E.
-    + specialize (O C). destruct (ordinary_check rfc ctl true ss 0) as [[sent ss1] o]; simpl in O; subst sent; reflexivity.
+    + specialize (O C). destruct (ordinary_check rfc ctl true ss 0) as [[[[|] ss1] o]|]; simpl in O; try discriminate; reflexivity.
     + rewrite O. simpl.
       set (ls := snd (unfreeze_next (P ss))) in *.
       assert (LL : length ls = length ss) by (unfold ls; rewrite unfreeze_next_length; unfold P; apply map_length).
-      assert (X : fst (fst (ordinary_agent_from rfc ctl (fun _ => true) (put_pairs ss ls) 1 (length ss0))) = true).
+      assert (X : sent (ordinary_agent_from rfc ctl (fun _ => true) (put_pairs ss ls) 1 (length ss0)) = true).
       { apply ordinary_agent_from_waiting; [rewrite put_pairs_length; lia | apply put_pairs_creds; exact C|].
         rewrite put_pairs_P by exact LL.
         rewrite any_waiting_concat in AW0; apply existsb_exists in AW0; destruct AW0 as [q [I S]]. apply in_concat in I; destruct I as [l [Il Iq]].
@@ -805,7 +920,7 @@ Proof.
         - destruct k; [|lia]. exfalso. apply find_next_waiting_none in E. rewrite Ek in E.
           assert (Y : existsb (is_state Waiting) l = true) by (apply existsb_exists; exists q; auto). congruence.
         - rewrite Ek; apply existsb_exists; exists q; auto. }
-      destruct (ordinary_agent_from rfc ctl (fun _ => true) (put_pairs ss ls) 1 (length ss0)) as [[a b] c]; simpl in *; exact X.
+      destruct (ordinary_agent_from rfc ctl (fun _ => true) (put_pairs ss ls) 1 (length ss0)) as [[[[|] b] c]|]; simpl in *; auto.
 Qed.
 Lemma F2_in_r : forall {A B} (R : A -> B -> Prop) l l' y, Forall2 R l l' -> In y l' -> exists x, In x l /\ R x y.
 Proof. induction 1 as [|a b l l' Hab H IH]; intros I; [contradiction|]. destruct I as [<- | I]; [exists a; split; [left|]; auto|]. destruct (IH I) as [x [Ix Rx]]; exists x; split; [right|]; auto. Qed.
@@ -830,14 +945,14 @@ Proof.
     + apply in_concat in Ip; destruct Ip as [l [Il Ip]]. exists l, p; auto.
 Qed.
 Lemma ordinary_agent_from_idle : forall rfc ctl ok n i ss, (forall s p, In s ss -> In p (s_pairs s) -> p_state p <> Waiting /\ p_state p <> Frozen) ->
-  ordinary_agent_from rfc ctl ok ss i n = (false, ss, []).
+  ordinary_agent_from rfc ctl ok ss i n = Some (false, ss, []).
 Proof.
   intros rfc ctl ok; induction n as [|n IH]; intros i ss H; [reflexivity|]. simpl.
   assert (F : fst (unfreeze_next (P ss)) = false).
   { destruct (fst (unfreeze_next (P ss))) eqn:X; auto. apply unfreeze_next_true in X; destruct X as [l [p [Il [Ip St]]]].
     unfold P in Il; apply in_map_iff in Il; destruct Il as [s [<- Is]]. destruct (H s p Is Ip); destruct St; contradiction. }
   destruct (unfreeze_next_false _ F) as [U _].
-  assert (O : ordinary_check rfc ctl (ok i) ss i = (false, ss, [])).
+  assert (O : ordinary_check rfc ctl (ok i) ss i = Some (false, ss, [])).
   { unfold ordinary_check. fold (P ss). rewrite ordinary_select_eq, U.
     assert (E : find_next_waiting (nth i (P ss) []) = None).
     { apply find_next_waiting_none. destruct (existsb (is_state Waiting) (nth i (P ss) [])) eqn:X; auto. apply existsb_exists in X; destruct X as [p [Ip S]].
@@ -849,7 +964,7 @@ Proof.
 Qed.
 (** ... and when no pair is WAITING or FROZEN the step sends nothing and changes nothing *)
 Theorem ordinary_agent_idle : forall rfc ctl ok ss, (forall s p, In s ss -> In p (s_pairs s) -> p_state p <> Waiting /\ p_state p <> Frozen) ->
-  ordinary_agent rfc ctl ok ss = (false, ss, []).
+  ordinary_agent rfc ctl ok ss = Some (false, ss, []).
 Proof. intros; unfold ordinary_agent; apply ordinary_agent_from_idle; assumption. Qed.
 
 (** * 7. Nomination by the peer (priv_mark_pair_nominated) *)
@@ -885,7 +1000,10 @@ Qed.
 Theorem mark_body_legacy_nominates : forall p res L c out t0,
   find_id (if is_state Succeeded p && negb (p_disc p =? 0) then p_disc p else p_id p) L = Some t0 -> p_valid t0 = false ->
   mark_body false p (res, L, c, out) =
-  let '(L3, c3, o3) := for_ready (update_id (p_id t0) (fun q => set_nom q true) L) c in Some (true, L3, c3, out ++ [] ++ o3).
+  match for_ready (update_id (p_id t0) (fun q => set_nom q true) L) c with
+  | None => None
+  | Some (L3, c3, o3) => Some (true, L3, c3, out ++ [] ++ o3)
+  end.
 Proof.
   intros p res L c out t0 F V; unfold mark_body; rewrite F, V; simpl.
   assert (E : (if is_state Succeeded p && negb (p_disc p =? 0) then p_disc p else p_id p) = p_id t0).
@@ -894,35 +1012,42 @@ Proof.
 Qed.
 (** a valid target: nominated in every mode; a FAILED component is revived to CONNECTING, the selected pair only moves to a strictly higher
     priority (conn_check_update_selected_pair), CONNECTING goes to CONNECTED, then the READY decision *)
-Definition comp_step (c : comp) (prio : Z) : comp * list Z :=
+Definition comp_step (c : comp) (t0 : pair) : comp * list Z :=
   let '(ca, oa) := if c_state c =? st_FAILED then signal c st_CONNECTING else (c, []) in
-  let cb := if c_sel ca <? prio then set_csel ca prio else ca in
+  let '(cb, ob) := update_selected ca t0 in
   let '(cc, oc) := if c_state cb =? st_CONNECTING then signal cb st_CONNECTED else (cb, []) in
-  (cc, oa ++ oc).
+  (cc, oa ++ ob ++ oc).
 Definition nominate_target (rfc : bool) (t0 : pair) (L : list pair) : list pair :=
   update_id (p_id t0) (fun q => set_nom q true)
     (if rfc && (p_trig t0 || is_state InProgress t0) then update_id (p_id t0) (fun q => set_mnora q true) L else L).
 Theorem mark_body_valid : forall rfc p res L c out t0,
   find_id (if is_state Succeeded p && negb (p_disc p =? 0) then p_disc p else p_id p) L = Some t0 -> p_valid t0 = true ->
   mark_body rfc p (res, L, c, out) =
-  let '(c2, o2) := comp_step c (p_prio t0) in
-  let '(L3, c3, o3) := for_ready (nominate_target rfc t0 L) c2 in Some (true, L3, c3, out ++ o2 ++ o3).
+  let '(c2, o2) := comp_step c t0 in
+  match for_ready (nominate_target rfc t0 L) c2 with
+  | None => None
+  | Some (L3, c3, o3) => Some (true, L3, c3, out ++ o2 ++ o3)
+  end.
 Proof.
   intros rfc p res L c out t0 F V; unfold mark_body; rewrite F, V; simpl.
   assert (E : (if is_state Succeeded p && negb (p_disc p =? 0) then p_disc p else p_id p) = p_id t0).
   { unfold find_id in F; apply find_some in F; destruct F as [_ F]; apply Z.eqb_eq in F; auto. }
   rewrite E, orb_true_r. reflexivity.
 Qed.
-Theorem comp_step_spec : forall c prio, let c2 := fst (comp_step c prio) in
-  c_sel c2 = Z.max (c_sel c) prio /\ c_id c2 = c_id c /\ c_remote c2 = c_remote c /\
+Theorem comp_step_spec : forall c t0, let c2 := fst (comp_step c t0) in
+  c_sel c2 = Z.max (c_sel c) (p_prio t0) /\ c_id c2 = c_id c /\ c_remote c2 = c_remote c /\
   (c_state c = st_FAILED \/ c_state c = st_CONNECTING -> c_state c2 = st_CONNECTED) /\
-  (c_state c <> st_FAILED -> c_state c <> st_CONNECTING -> c_state c2 = c_state c /\ snd (comp_step c prio) = []).
+  (c_state c <> st_FAILED -> c_state c <> st_CONNECTING ->
+     c_state c2 = c_state c /\ snd (comp_step c t0) = if c_sel c <? p_prio t0 then [sg_SELECTED] else []) /\
+  (c_sel c < p_prio t0 -> c_sel_local c2 = p_local t0 /\ c_sel_remote c2 = p_remote t0) /\
+  (p_prio t0 <= c_sel c -> c_sel_local c2 = c_sel_local c /\ c_sel_remote c2 = c_sel_remote c).
 Proof.
-  intros [i s sel r] prio; unfold comp_step, signal, st_FAILED, st_CONNECTING, st_CONNECTED, set_csel, set_cstate; simpl.
+  intros [i s sel sl sr r] t0; unfold comp_step, update_selected, signal, st_FAILED, st_CONNECTING, st_CONNECTED, set_cstate; simpl.
   destruct (s =? 5) eqn:S5; [apply Z.eqb_eq in S5; subst s|apply Z.eqb_neq in S5]; simpl;
-  destruct (sel <? prio) eqn:X; [apply Z.ltb_lt in X | apply Z.ltb_ge in X | apply Z.ltb_lt in X | apply Z.ltb_ge in X]; simpl;
+  destruct (sel <? p_prio t0) eqn:X; [apply Z.ltb_lt in X | apply Z.ltb_ge in X | apply Z.ltb_lt in X | apply Z.ltb_ge in X]; simpl;
     try (destruct (s =? 2) eqn:S2; [apply Z.eqb_eq in S2; subst s | apply Z.eqb_neq in S2]); simpl;
-    repeat split; try lia; try (intros [H | H]; congruence || lia); try (intros; congruence || lia); auto.
+    (split; [lia|]; split; [reflexivity|]; split; [reflexivity|];
+     split; [intros [H | H]; congruence || lia || reflexivity|]; split; [intros; split; congruence || lia || reflexivity|]; split; intros; split; lia || reflexivity).
 Qed.
 Theorem nominate_target_spec : forall rfc t0 L q, In q (nominate_target rfc t0 L) ->
   exists q0, In q0 L /\ p_id q = p_id q0 /\ p_valid q = p_valid q0 /\ p_state q = p_state q0 /\ p_prio q = p_prio q0 /\ p_comp q = p_comp q0 /\
@@ -971,18 +1096,30 @@ Proof.
   destruct E as [_ [[T _] | [_ [S | S]]]]; congruence.
 Qed.
 (* the list after for_ready: every pair comes from a pair before; safe pairs stay *)
-Lemma for_ready_list : forall l c, let l' := fst (fst (for_ready l c)) in
+Lemma for_ready_list : forall l c l' c' o, for_ready l c = Some (l', c', o) ->
   (forall q', In q' l' -> exists q, In q l /\ same_core q' q) /\ (forall q, In q l -> safe q -> exists q', In q' l' /\ same_core q' q).
 Proof.
-  intros l c; rewrite for_ready_eq.
-  assert (Pr : let l' := snd (prune (c_id c) (c_sel c) l) in
+  intros l c l' c' o H; rewrite for_ready_eq in H. destruct (faults l c); [discriminate|]. cbv zeta in H.
+  assert (Pr : forall sel, let l' := snd (prune (c_id c) sel l) in
     (forall q', In q' l' -> exists q, In q l /\ same_core q' q) /\ (forall q, In q l -> safe q -> exists q', In q' l' /\ same_core q' q)).
-  { split.
+  { intro sel; split.
     - intros q' I; apply prune_result in I; destruct I as [q [Iq [_ ->]]]; exists q; split; auto; apply touch_core.
-    - intros q I S; exists (touch (c_id c) (c_sel c) q); split; [apply prune_result; exists q; repeat split; auto; apply safe_not_prunable; exact S | apply touch_core]. }
+    - intros q I S; exists (touch (c_id c) sel q); split; [apply prune_result; exists q; repeat split; auto; apply safe_not_prunable; exact S | apply touch_core]. }
   assert (Id : (forall q', In q' l -> exists q, In q l /\ same_core q' q) /\ (forall q, In q l -> safe q -> exists q', In q' l /\ same_core q' q)).
   { split; [intros q' I; exists q'; split; auto; apply same_core_refl | intros q I _; exists q; split; auto; apply same_core_refl]. }
-  destruct (goes_ready l c); simpl; [exact Pr|]. destruct (has_nominated_valid (c_id c) l); simpl; [exact Pr | exact Id].
+  destruct (goes_ready l c); [inversion H; subst; apply Pr|]. destruct (has_nominated_valid (c_id c) l); inversion H; subst; [apply Pr | exact Id].
+Qed.
+(* a selected pair, when there is one, has a positive priority *)
+Definition comp_ok (c : comp) : Prop := c_sel_local c <> 0 -> 0 < c_sel c.
+Lemma for_ready_comp_ok : forall l c l' c' o, for_ready l c = Some (l', c', o) -> comp_ok c -> comp_ok c'.
+Proof.
+  intros l c l' c' o H Ok. pose proof H as H0. rewrite for_ready_eq in H. destruct (faults l c) eqn:F; [discriminate|]. cbv zeta in H.
+  assert (Okt : has_nominated_valid (c_id c) l = true -> comp_ok (fst (takeover l c))).
+  { intros NV _. unfold faults in F; rewrite NV in F; simpl in F; apply negb_false_iff, Z.ltb_lt in F; exact F. }
+  destruct (goes_ready l c) eqn:G.
+  - inversion H; subst. unfold goes_ready in G; apply andb_true_iff in G; destruct G as [NV _].
+    destruct (ready_progress_spec (fst (takeover l c))) as [_ [_ [Hs [[Hl _] _]]]]. unfold comp_ok; rewrite Hs, Hl; apply Okt; exact NV.
+  - destruct (has_nominated_valid (c_id c) l) eqn:NV; inversion H; subst; auto.
 Qed.
 (* the pair the body works on: the pair itself, or the peer-reflexive pair discovered by its check *)
 Definition tid (p : pair) : Z := if is_state Succeeded p && negb (p_disc p =? 0) then p_disc p else p_id p.
@@ -1008,19 +1145,54 @@ Proof.
   destruct R as [Ra Rb].
   destruct (if p_valid t0 then _ else (c, [])) as [c2 o2].
   destruct (p_nom t0 || p_valid t0 || negb rfc).
-  - pose proof (for_ready_list L2 c2) as FR; cbv zeta in FR. destruct (for_ready L2 c2) as [[L3 c3] o3]; simpl in *. destruct FR as [Fa Fb].
+  - destruct (for_ready L2 c2) as [[[L3 c3] o3]|] eqn:FR; [|discriminate].
+    destruct (for_ready_list _ _ _ _ _ FR) as [Fa Fb].
     inversion H; subst st'; simpl. split.
     + intros q' I. destruct (Fa q' I) as [q2 [I2 C2]]. destruct (Ra q2 I2) as [q [I0 C0]]. exists q; split; auto. eapply same_core_trans; eauto.
     + intros q I S. destruct (Rb q I) as [q2 [I2 C2]]. destruct (Fb q2 I2 (same_core_safe _ _ C2 S)) as [q' [I' C']]. exists q'; split; auto. eapply same_core_trans; eauto.
   - inversion H; subst st'; simpl. split; [exact Ra | intros q I _; apply Rb; exact I].
 Qed.
-Lemma mark_body_some : forall rfc p st, (exists t, In t (snd (fst (fst st))) /\ p_id t = tid p) -> mark_body rfc p st <> None.
+(* the component after the part of the body that precedes the READY decision *)
+Lemma update_selected_ok : forall c t, comp_ok c -> 0 < p_prio t -> comp_ok (fst (update_selected c t)).
 Proof.
-  intros rfc p [[[res L] c] out] [t [It Et]]; simpl in It. unfold mark_body. fold (tid p).
+  intros c t Ok Pt; unfold update_selected. destruct (c_sel c <? p_prio t); simpl; auto. intros _; exact Pt.
+Qed.
+Lemma mark_body_ok : forall rfc p st, (exists t, In t (snd (fst (fst st))) /\ p_id t = tid p) ->
+  comp_ok (snd (fst st)) -> (forall q, In q (snd (fst (fst st))) -> 0 < p_prio q) ->
+  exists st', mark_body rfc p st = Some st' /\ comp_ok (snd (fst st')).
+Proof.
+  intros rfc p [[[res L] c] out] [t [It Et]] Ok Pos; simpl in *. unfold mark_body. fold (tid p).
   destruct (find_id (tid p) L) as [t0|] eqn:F.
-  - destruct (if p_valid t0 then _ else (c, [])) as [c2 o2]. destruct (p_nom t0 || p_valid t0 || negb rfc); [|discriminate].
-    destruct (for_ready _ c2) as [[L3 c3] o3]; discriminate.
-  - exfalso. unfold find_id in F. pose proof (find_none _ _ F t It) as X; simpl in X. apply Z.eqb_neq in X; contradiction.
+  2:{ exfalso. unfold find_id in F. pose proof (find_none _ _ F t It) as X; simpl in X. apply Z.eqb_neq in X; contradiction. }
+  assert (Pt : 0 < p_prio t0) by (apply Pos; unfold find_id in F; apply find_some in F; apply F).
+  set (L1 := if rfc && (p_trig t0 || is_state InProgress t0) then update_id (tid p) (fun q => set_mnora q true) L else L).
+  set (L2 := if p_valid t0 || negb rfc then update_id (tid p) (fun q => set_nom q true) L1 else L1).
+  assert (P2 : forall q, In q L2 -> 0 < p_prio q).
+  { assert (U : forall f l q, (forall x, p_prio (f x) = p_prio x) -> In q (update_id (tid p) f l) -> exists q0, In q0 l /\ p_prio q = p_prio q0).
+    { intros f l q Hf I. unfold update_id in I; apply in_map_iff in I; destruct I as [q0 [E I]]. exists q0; split; auto.
+      destruct (p_id q0 =? tid p); subst q; auto. }
+    assert (P1 : forall q, In q L1 -> 0 < p_prio q).
+    { intros q I; unfold L1 in I. destruct (rfc && (p_trig t0 || is_state InProgress t0)); [|auto].
+      destruct (U (fun x => set_mnora x true) _ _ (fun x => eq_refl) I) as [q0 [I0 ->]]; auto. }
+    intros q I; unfold L2 in I. destruct (p_valid t0 || negb rfc); [|auto].
+    destruct (U (fun x => set_nom x true) _ _ (fun x => eq_refl) I) as [q0 [I0 ->]]; auto. }
+  assert (Ok2 : comp_ok (fst (if p_valid t0 then
+          let '(ca, oa) := if c_state c =? st_FAILED then signal c st_CONNECTING else (c, []) in
+          let '(cb, ob) := update_selected ca t0 in
+          let '(cc, oc) := if c_state cb =? st_CONNECTING then signal cb st_CONNECTED else (cb, []) in
+          (cc, oa ++ ob ++ oc) else (c, [])))).
+  { destruct (p_valid t0); [|exact Ok].
+    assert (Oka : comp_ok (fst (if c_state c =? st_FAILED then signal c st_CONNECTING else (c, [])))).
+    { destruct (c_state c =? st_FAILED); [|exact Ok]. unfold signal; destruct (c_state c =? st_CONNECTING); exact Ok. }
+    destruct (if c_state c =? st_FAILED then signal c st_CONNECTING else (c, [])) as [ca oa]; simpl in Oka.
+    pose proof (update_selected_ok ca t0 Oka Pt) as Okb. destruct (update_selected ca t0) as [cb ob]; simpl in Okb.
+    destruct (c_state cb =? st_CONNECTING); [|exact Okb]. unfold signal; destruct (c_state cb =? st_CONNECTED); exact Okb. }
+  fold L1. fold L2.
+  destruct (if p_valid t0 then _ else (c, [])) as [c2 o2]; simpl in Ok2.
+  destruct (p_nom t0 || p_valid t0 || negb rfc); [|eexists; split; [reflexivity | exact Ok2]].
+  destruct (for_ready L2 c2) as [[[L3 c3] o3]|] eqn:FR.
+  - eexists; split; [reflexivity|]. simpl. eapply for_ready_comp_ok; eauto.
+  - exfalso; revert FR; apply for_ready_never_asserts; [exact Ok2 | intros q I _ _ _; apply P2; exact I].
 Qed.
 Lemma after_id_incl : forall id l r, after_id id l = Some r -> incl r l.
 Proof.
@@ -1030,39 +1202,44 @@ Proof.
 Qed.
 Lemma same_core_tid : forall q' q, same_core q' q -> tid q' = tid q.
 Proof. unfold same_core, tid, is_state; intros q' q [A [_ [_ [B [_ [_ [C _]]]]]]]; rewrite A, B, C; reflexivity. Qed.
-Definition loop_inv (lc rc : Z) (L : list pair) : Prop :=
-  forall p, In p L -> matches lc rc p = true -> safe p /\ exists t, In t L /\ p_id t = tid p /\ safe t.
+Definition loop_inv (lc rc : Z) (st : mstate) : Prop :=
+  let L := snd (fst (fst st)) in
+  (forall p, In p L -> matches lc rc p = true -> safe p /\ exists t, In t L /\ p_id t = tid p /\ safe t) /\
+  comp_ok (snd (fst st)) /\ (forall q, In q L -> 0 < p_prio q).
 Lemma mark_loop_some : forall rfc lc rc n rest st,
-  incl rest (snd (fst (fst st))) -> loop_inv lc rc (snd (fst (fst st))) -> mark_loop rfc lc rc n rest st <> None.
+  incl rest (snd (fst (fst st))) -> loop_inv lc rc st -> mark_loop rfc lc rc n rest st <> None.
 Proof.
-  intros rfc lc rc; induction n as [|n IH]; intros rest st I S; [discriminate|]. simpl.
+  intros rfc lc rc; induction n as [|n IH]; intros rest st I [S [Ok Pos]]; [discriminate|]. simpl.
   destruct rest as [|p rest]; [discriminate|]. fold (matches lc rc p). destruct (matches lc rc p) eqn:M.
   - assert (Ip : In p (snd (fst (fst st)))) by (apply I; left; reflexivity).
     destruct (S p Ip M) as [Sp [t [It [Et St]]]].
-    destruct (mark_body rfc p st) as [st'|] eqn:B; [|exfalso; revert B; apply mark_body_some; exists t; auto].
+    destruct (mark_body_ok rfc p st (ex_intro _ t (conj It Et)) Ok Pos) as [st' [B Ok']]. rewrite B.
     pose proof (mark_body_list rfc p st st' B) as [Ba Bb]; cbv zeta in Ba, Bb.
     destruct (Bb p Ip Sp) as [p' [I' C']].
     destruct (after_id (p_id p) (snd (fst (fst st')))) as [rest''|] eqn:A.
-    + apply IH.
-      * apply after_id_incl in A; exact A.
+    + apply IH; [apply after_id_incl in A; exact A|]. split; [|split; [exact Ok'|]].
       * intros q Iq Mq. destruct (Ba q Iq) as [q0 [I0 C0]].
         assert (M0 : matches lc rc q0 = true) by (unfold matches in *; destruct C0 as [_ [C1 [C2 _]]]; rewrite <- C1, <- C2; exact Mq).
         destruct (S q0 I0 M0) as [S0 [t0 [It0 [Et0 St0]]]]. split; [eapply same_core_safe; eauto|].
         destruct (Bb t0 It0 St0) as [t' [It' Ct']]. exists t'; split; auto. split; [|eapply same_core_safe; eauto].
         rewrite (same_core_tid _ _ C0). destruct Ct' as [X _]; congruence.
+      * intros q Iq. destruct (Ba q Iq) as [q0 [I0 C0]]. destruct C0 as [_ [_ [_ [_ [_ [-> _]]]]]]. apply Pos; exact I0.
     + exfalso; revert A; apply after_id_in; exists p'; split; auto. apply C'.
-  - apply IH; auto. intros x Ix; apply I; right; exact Ix.
+  - apply IH; auto. intros x Ix; apply I; right; exact Ix. split; auto.
 Qed.
-(** The loop of priv_mark_pair_nominated never reads freed memory provided no pair for the nominated candidates - nor the peer-reflexive pair
-    discovered by such a pair - is FROZEN, WAITING or in the triggered-check queue when the nomination is processed, and discovered_pair
-    pointers do not dangle at entry (see [mark_nominated_cursor_freed], [dangling_discovered_pair_after_prune] for lists where it does) *)
+(** priv_mark_pair_nominated neither aborts nor reads freed memory provided: no pair for the nominated candidates - nor the peer-reflexive
+    pair discovered by such a pair - is FROZEN, WAITING or in the triggered-check queue when the nomination is processed; discovered_pair
+    pointers do not dangle at entry; pair priorities are positive and so is the priority of the selected pair when there is one
+    (see [mark_nominated_cursor_freed], [dangling_discovered_pair_after_prune] for lists where it reads freed memory) *)
 Theorem mark_nominated_memory_safe : forall rfc ctl l c lc rc,
   (forall p, In p l -> matches lc rc p = true -> safe p /\ exists t, In t l /\ p_id t = tid p /\ safe t) ->
+  (c_sel_local c <> 0 -> 0 < c_sel c) -> (forall q, In q l -> 0 < p_prio q) ->
   mark_nominated rfc ctl l c lc rc <> None.
 Proof.
-  intros rfc ctl l c lc rc S; unfold mark_nominated. destruct (rfc && ctl); [discriminate|].
-  apply mark_loop_some; simpl; [apply incl_refl | exact S].
+  intros rfc ctl l c lc rc S Ok Pos; unfold mark_nominated. destruct (rfc && ctl); [discriminate|].
+  apply mark_loop_some; simpl; [apply incl_refl | split; [exact S | split; [exact Ok | exact Pos]]].
 Qed.
+
 (** * 8. Witnesses: what the code does NOT guarantee (each by computation on the model; the model is tied to the code) *)
 Definition mk (id comp lf rf prio : Z) (st : pstate) (nom valid trig : bool) : pair :=
   mkPair id comp lf rf lf rf prio st nom valid false false false false trig 0.
@@ -1092,14 +1269,14 @@ Proof. vm_compute; reflexivity. Qed.
 
 (** READY does not require the nominated valid pair to be SUCCEEDED or DISCOVERED: a pair whose later re-check failed still counts *)
 Example ready_with_failed_nominated_pair_refuted :
-  for_ready [mk 1 1 1 1 50 Failed true true false] (mkComp 1 st_CONNECTED 50 true)
-  = ([mk 1 1 1 1 50 Failed true true false], mkComp 1 st_READY 50 true, [st_READY]).
+  for_ready [mk 1 1 1 1 50 Failed true true false] (mkComp 1 st_CONNECTED 50 1 1 true)
+  = Some ([mk 1 1 1 1 50 Failed true true false], mkComp 1 st_READY 50 1 1 true, [st_READY]).
 Proof. vm_compute; reflexivity. Qed.
 (** READY does not wait for better pairs that were never tried: FROZEN / WAITING pairs of the component are discarded whatever their
     priority (RFC 5245 8.1.2; RFC 8445 8.1.1 lets the controlling side decide) *)
 Example ready_discards_untried_better_pair :
-  for_ready [mk 1 1 1 1 90 Frozen false false false; mk 2 1 2 2 50 Succeeded true true false] (mkComp 1 st_CONNECTED 50 true)
-  = ([mk 2 1 2 2 50 Succeeded true true false], mkComp 1 st_READY 50 true, [st_READY]).
+  for_ready [mk 1 1 1 1 90 Frozen false false false; mk 2 1 2 2 50 Succeeded true true false] (mkComp 1 st_CONNECTED 50 2 2 true)
+  = Some ([mk 2 1 2 2 50 Succeeded true true false], mkComp 1 st_READY 50 2 2 true, [st_READY]).
 Proof. vm_compute; reflexivity. Qed.
 (** pruning can delete a nominated valid pair: one that sits in the triggered-check queue with a priority below the selected pair's *)
 Example prune_never_removes_nominated_refuted :
@@ -1108,18 +1285,18 @@ Example prune_never_removes_nominated_refuted :
 Proof. vm_compute; reflexivity. Qed.
 (** FAILED does not mean that every pair failed: succeeded (valid) pairs that nobody nominated do not count ... *)
 Example failed_with_valid_pairs_refuted :
-  failed_components false [mk 1 1 1 1 50 Succeeded false true false] [mkComp 1 st_CONNECTED 0 true]
-  = ([mkComp 1 st_FAILED 0 true], [(1, st_FAILED)]).
+  failed_components false [mk 1 1 1 1 50 Succeeded false true false] [mkComp 1 st_CONNECTED 0 0 0 true]
+  = ([mkComp 1 st_FAILED 0 0 0 true], [(1, st_FAILED)]).
 Proof. vm_compute; reflexivity. Qed.
 (** ... and a component without a single pair in a non-empty check list is failed as soon as it has remote candidates *)
 Example failed_without_pairs :
-  failed_components false [mk 1 1 1 1 50 InProgress false false false] [mkComp 1 st_CONNECTING 0 true; mkComp 2 st_CONNECTING 0 true]
-  = ([mkComp 1 st_CONNECTING 0 true; mkComp 2 st_FAILED 0 true], [(2, st_FAILED)]).
+  failed_components false [mk 1 1 1 1 50 InProgress false false false] [mkComp 1 st_CONNECTING 0 0 0 true; mkComp 2 st_CONNECTING 0 0 0 true]
+  = ([mkComp 1 st_CONNECTING 0 0 0 true; mkComp 2 st_FAILED 0 0 0 true], [(2, st_FAILED)]).
 Proof. vm_compute; reflexivity. Qed.
 (** the loop of priv_mark_pair_nominated can delete the link it stands on: legacy compatibility (every incoming check nominates), the
     component already has a selected pair of higher priority, the nominated pair is WAITING in the triggered-check queue *)
 Example mark_nominated_cursor_freed :
-  mark_nominated false false [mk 1 1 1 1 80 Succeeded true true false; mk 2 1 2 2 50 Waiting false false true] (mkComp 1 st_READY 80 true) 2 2 = None.
+  mark_nominated false false [mk 1 1 1 1 80 Succeeded true true false; mk 2 1 2 2 50 Waiting false false true] (mkComp 1 st_READY 80 1 1 true) 2 2 = None.
 Proof. vm_compute; reflexivity. Qed.
 (** pruning can delete a DISCOVERED pair and keep the SUCCEEDED pair whose discovered_pair points to it (or the other way round):
     the pointer dangles, and a later nomination of the kept pair dereferences it (g_assert (pair->state == NICE_CHECK_DISCOVERED)) *)
@@ -1128,8 +1305,20 @@ Example dangling_discovered_pair_after_prune :
   let disc := mkPair 2 1 3 1 3 1 40 Discovered true true false false false false true 0 in
   let best := mk 3 1 5 5 80 Succeeded true true false in
   prune 1 80 [parent; best; disc] = (0, [parent; best]) /\
-  mark_nominated false false [parent; best] (mkComp 1 st_READY 80 true) 1 1 = None.
+  mark_nominated false false [parent; best] (mkComp 1 st_READY 80 5 5 true) 1 1 = None.
 Proof. vm_compute; split; reflexivity. Qed.
+(** regression witness of e3eeaf1: no selected pair (its socket was removed: local NULL, priority 0) and one valid nominated pair left.
+    Before the fix the READY decision went straight to the pruning step with selected priority 0 - [prune_chk 1 0] - and the process aborted
+    on g_assert (priority > 0); now the pair takes over, new-selected-pair is emitted and the component goes READY *)
+Example for_ready_without_selected_pair_regression :
+  let l := [mk 1 1 1 1 50 Succeeded true true false] in
+  prune_chk 1 0 l = None /\
+  for_ready l (mkComp 1 st_CONNECTED 0 0 0 true) = Some (l, mkComp 1 st_READY 50 1 1 true, [sg_SELECTED; st_READY]).
+Proof. vm_compute; split; reflexivity. Qed.
+(** the assertion is still there for states the code cannot be in: a selected pair (local != NULL) of priority 0 *)
+Example for_ready_asserts_on_inconsistent_selected_pair :
+  for_ready [mk 1 1 1 1 50 Succeeded true true false] (mkComp 1 st_CONNECTED 0 7 7 true) = None.
+Proof. vm_compute; reflexivity. Qed.
 (* the hypotheses of the theorems above are satisfiable *)
 Example unfreeze_progress_example :
   unfreeze_next [[mk 1 1 7 7 30 Frozen false false false; mk 2 2 7 7 20 Frozen false false false]; [mk 3 1 8 7 10 Frozen false false false]]
